@@ -44,8 +44,10 @@ def obligations(tier: str, oracle: str = ORACLE) -> list[dict]:
     obs = []
 
     def ob(kinds: list, W: int, npre: int, timeout: int, codes: list | None = None, prepop: bool = True,
-           pin: dict | None = None) -> None:
+           pin: dict | None = None, narrow: bool = False) -> None:
         sh = {'W': W, 'npre': npre, 'kinds': kinds, 'oracle': oracle, 'prepop': prepop}
+        if narrow:
+            sh['narrow'] = True
         if pin:
             sh['pin'] = pin
         if codes is not None:
@@ -53,23 +55,28 @@ def obligations(tier: str, oracle: str = ORACLE) -> list[dict]:
         obs.append({'name': '%s/W%d/pre%d%s%s' % ('+'.join(kinds), W, npre,
                                                    '' if codes is None else '/codes' + ''.join(map(str, codes)),
                                                    ('' if prepop else '/nopop') +
-                                                   ('' if not pin else '/pin' + '.'.join('%s=%s' % kv for kv in sorted(pin.items())))),
+                                                   ('' if not pin else '/pin' + '.'.join('%s=%s' % kv for kv in sorted(pin.items()))) +
+                                                   ('/narrow' if narrow else '')),
                     'shard': sh, 'timeout': timeout})
 
     NOBLK = [1, 2, 3]   # get_inverse of a CircuitGate needs numerics (DaggerGate): tagged gates have none
+    BIGARGS = ('batch_replace', 'batch_pop', 'replace_gate', 'insert_circuit', 'append_circuit', 'insert_gate',
+               'append_gate', 'fold', 'straighten', 'fold_unfold', 'replace_with_circuit', 'renumber')
     if tier == 'quick':
         for k in KINDS:
-            ob([k], 3, 1, 200, NOBLK if k == 'inverse' else None)
-        for k in ['insert_gate', 'pop', 'replace_gate', 'fold', 'batch_replace', 'replace_with_circuit']:
-            ob([k], 2, 2, 200, [1, 2])
+            if k == 'replace_perm':
+                continue
+            big = k in BIGARGS
+            ob([k], 3, 1, 200, NOBLK if (k == 'inverse' or big) else None, not big, None, big and k != 'insert_gate')
+        for k in ['pop', 'replace_gate', 'fold']:
+            ob([k], 2, 2, 200, [1, 2], True, None, True)
         for k in ['unfold', 'batch_unfold', 'unfold_all']:
-            ob([k], 2, 3, 200, [1, 5, 6], False)
+            ob([k], 2, 3, 200, [1, 5], False, None, True)
         for k1, k2 in (('renumber', 'pop'), ('insert_qudit', 'replace_gate'), ('pop_qudit', 'insert_gate')):
-            ob([k1, k2], 3, 1, 200, [2], False)
+            ob([k1, k2], 3, 1, 200, [2], False, None, True)
         # a replace that re-keys the dependency node, then a removal that deletes a cycle (3-op pre-states)
-        for a0 in (0, 1):
-            for q in (0, 1):
-                ob(['replace_gate', 'pop'], 2, 3, 240, [1, 2], False, {'0': a0, '1': q})
+        for q in (0, 1):      # pre-state pattern 1-qudit, 2-qudit, 1-qudit op (symbolic locations and cycles)
+            ob(['replace_perm', 'pop'], 2, 3, 240, [1, 2], False, {'0': 0, '1': q, '5': 1, '10': 0}, True)
     else:
         T = 300      # per-obligation cap: thorough = 112 obligations x <=300 s on 16 cores (~35 min); obligations that do
         #              not exhaust inside the cap are reported as inconclusive, never as success
